@@ -5,7 +5,7 @@ import struct
 
 from hypothesis import strategies as st
 
-from harness import build, gen, simnet, wire, deflateref
+from harness import build, gen, simnet, wire, deflateref, httpref
 from harness.runner import Prop, Enumeration, held, failed
 from props.c04 import deflate_reply
 
@@ -141,7 +141,8 @@ def same(a, b):
 class C03(Prop):
     id = "C03"
     level = "exploration"
-    rule = ("a Ready connection (permessage-deflate negotiated or not), then 1-6 calls drawn from send_text / send_binary "
+    rule = ("a Ready connection (permessage-deflate not negotiated, negotiated with defaults, or with drawn window bits and "
+            "no_context_takeover flags that the inflating peer honours), then 1-6 calls drawn from send_text / send_binary "
             "(compress True/False) / send_json (positional, keyword, both, unencodable) / send_ping / send_pong / "
             "close(code 0..65535|None, reason str|bytes) incl. invalid ones (wrong types, 126-300 byte control payloads, "
             "close reasons over 123 bytes), with Hypothesis-drawn masking keys; the bytes passed to sendall by each call are "
@@ -205,7 +206,7 @@ class C03(Prop):
         return st.fixed_dictionaries({
             "calls": st.lists(call, min_size=1, max_size=6),
             "keys": st.lists(key, min_size=6, max_size=6),
-            "deflate": st.booleans(),
+            "deflate": gen.deflate_opt(),
         })
 
     def enumerations(self, tier):
@@ -222,10 +223,10 @@ class C03(Prop):
         return [Enumeration("length_sweep_x_4_keys", sweep, exhaustive=True)]
 
     def run_case(self, case):
-        negotiated = case["deflate"]
+        negotiated = bool(case["deflate"])
         calls = case["calls"]
         results = []
-        peer = deflateref.Peer()
+        peer = deflateref.peer_of(case["deflate"])     # honours the negotiated windows and no_context_takeover flags
         labels = set()
         nontrivial = False
         state = {"closed": False}
@@ -254,7 +255,7 @@ class C03(Prop):
                 results.append(rec)
 
         scn = build.scenario(
-            [["wait_request"], ["stream", [["reply", deflate_reply() if negotiated else None]], "whole", 0.0],
+            [["wait_request"], ["stream", [["reply", httpref.canonical_spec(extensions=[deflateref.header_of(case["deflate"])]) if negotiated else None]], "whole", 0.0],
              ["eof", 1.0]],
             ws_opts={"compress": True} if negotiated else None,
             connect_opts={"ping_rate": 0}, masks=case["keys"])
